@@ -165,3 +165,11 @@ Example spatial_finite_at_ear_b32 :
   let g := ear_gains_b32 (Z32 1) (V32 0 0 0) Q_ID32 (V3 (neg32 EAR_DISTANCE32) (Z32 0) (Z32 0)) in
   bits_of_f32 (fst g) = 0x3F000000 /\ isfinite32 (snd g) = true.
 Proof. vm_compute. split; reflexivity. Qed.
+(** far apart: the difference of the positions overflows to infinity; distance inf clamps to the
+    maximum, and [normalize_or_zero] of an infinite vector is the zero vector ([1/inf = 0]) *)
+Example spatial_finite_far_apart_b32 :
+  finite_frame (spatialize_b32 (fun x => x) (fun x => x) (Z32 1) (Z32 100) true (f32_of_bits 0x3F000000, f32_of_bits 0xBE800000)
+                  (V32 0x7F61B1E6 0 0) Q_ID32 (V32 0xFF61B1E6 0 0) (f32_of_bits 0x3F400000)) = true /\
+  finite_frame (spatialize_b32 (fun x => x) (fun x => x) (Z32 1) (Z32 100) false (f32_of_bits 0x3F000000, f32_of_bits 0xBE800000)
+                  (V32 0x7F61B1E6 0 0) Q_ID32 (V32 0xFF61B1E6 0 0) (Z32 1)) = true.
+Proof. vm_compute. split; reflexivity. Qed.
